@@ -124,6 +124,23 @@ def finalize(R):
             cx = groups.pop(g)
             if not swept[g.split('/')[0]]:
                 R.inconclusive.append(f'counterexample for "{cx["obligation"]}" ({g}) did not reproduce with the native size recipes: {str(cx.get("model"))[:200]}')
+    # the root-update budget, natively (always): with max_root_updates = k and more newer roots on offer, at most k root files may be requested
+    budget_dev = False
+    for k in (1, 2):
+        sc = repo(None, limits={'max_root_updates': k})
+        base_root = sc['roots'][0]
+        sc['roots'] += [dict(base_root, version=v) for v in (2, 3, 4, 5)]
+        sc['cycles'][0]['serve_roots'] = {str(v): v - 1 for v in (2, 3, 4, 5)}
+        real = R.replay('history', sc)['cycles'][0]
+        nroot = len([x for x in real['requests'] if x[0].endswith('.root.json')])
+        R.differential['scenarios'] += 1
+        if nroot > k or real.get('ok'):
+            budget_dev = True
+            R.report_violation(f"max_root_updates = {k} with root versions 2..5 on offer: {nroot} root files were requested" + (' and the cycle succeeded' if real.get('ok') else f" (result: {real.get('err')})"), sc)
+            break
+        R.differential['agree'] += 1
+    for g in [g for g in groups if g in ('load_root/update-budget', 'load_root/no-overflow')]:
+        if budget_dev: groups.pop(g)
     for g, cx in groups.items():
         if g == 'delegated/bound-param' or g == 'delegated/refusal-justified':
             d = [{'name': 'd', 'keys': [4], 'thr': 1, 'table': [4], 'doc': {'version': 1, 'signers': [4], 'ntargets': 200}}]
